@@ -88,6 +88,7 @@ type Node struct {
 	ClassExprs  []string // class:#{a, b}
 	ObjRef      string   // [o0] or [o0, "pre"]
 	Pad         string   // KStmt: white space after the statement, before the line break
+	Lead        string   // KStmt: white space (also non-ASCII) between the dash and the statement
 	Attrs       []Attr
 	AttrsCmd    string // @attributes: #{m0, mb}
 	AttrLayout  int    // 0 compact, 1 spaced, 2 multi-line, 3 multi-line trailing comma
@@ -442,14 +443,16 @@ func (p *Printer) node(n *Node, indent int) {
 				p.node(k, indent+1)
 			}
 		}
-		if len(n.Chain) > 0 && n.Chain[0].Braces {
+		// the author closes what the author opened: a chain whose LAST branch was written with a brace ends with
+		// `- }`; a shorthand `- else` after a braced `- if x {` closes the block itself
+		if len(n.Chain) > 0 && n.Chain[len(n.Chain)-1].Braces {
 			p.w(tabs + "- ")
 			p.frag("silent", "}")
 			p.w("\n")
 		}
 	case KStmt:
 		p.feat("stmt")
-		p.w(tabs + "- ")
+		p.w(tabs + "- " + n.Lead)
 		p.frag("silent", n.Code)
 		p.w(n.Pad + "\n")
 	case KRubyComment:
